@@ -10,7 +10,7 @@ The Lean theorem `*_refines` states M = S whenever the list of deviation predica
 and S's bytes are fed to the real decoder, which must return the value ("the decoder accepts exactly those")."""
 from . import core, impl
 from .codecs import py_equal, impl_answer_enc
-from .gen import Gen, Opts, module_text, ty_sx, val_sx, features, is_modelled, RefCtx, variant
+from .gen import Gen, Opts, module_text, ty_sx, val_sx, features, is_modelled, RefCtx, variant, boundary_cases
 
 
 def parse_spec_answer(a):
@@ -109,6 +109,23 @@ def run_exact(ctx, prop, codecs, spec_codec_name, option_devs=(), opts=None, nmo
                 reqs.append('spec\t%s\t%s\t%s' % (spec_codec_name[codec], tsx, vsx))
                 reqs.append('enc\t%s\t%s\t%s' % (codec, tsx, vsx))
         cases.append((t, texts, vals))
+    # deterministic-shape cases at the thresholds the codecs branch on (range widths up to 2^72, 7/8/9 .. 65 additions,
+    # lengths around 127/128, 255/256, 16K), in addition to the random ones
+    nb = 0
+    for t, vals in boundary_cases(rng):
+        if not is_modelled(t):
+            continue
+        features(t, feat)
+        vals = vals[:8]
+        tsx = ty_sx(t)
+        for v in vals:
+            vsx = val_sx(t, v)
+            for codec in codecs:
+                reqs.append('spec\t%s\t%s\t%s' % (spec_codec_name[codec], tsx, vsx))
+                reqs.append('enc\t%s\t%s\t%s' % (codec, tsx, vsx))
+        cases.append((t, [('boundary', module_text([('A', t)]), False)], vals))
+        nb += 1
+    ctx.count('boundary_case_types', nb)
     ctx.hist.update({'type.' + k: v for k, v in feat.items()})
     ans = ctx.model.batch(reqs)
     it = iter(ans)
